@@ -33,6 +33,7 @@ type HarnessCfg struct {
 	Note            string             `json:"note"`
 	Shrink          []string           `json:"shrink"` // names of shrink overlays this harness relies on (informational)
 	ShrinkSet       string             `json:"shrink_set"` // named alternative shrink overlay list of the spec
+	MaxWallS        float64            `json:"max_wall_s"` // wall-clock budget of the harness (default 900 s quick / 3600 s thorough); paths left over = inconclusive
 	Workers         int                `json:"workers"`
 	Preemptions     int                `json:"preemptions"`         // sched=all: bound on preemptive context switches per path (default 2)
 	MinMaxIte       bool               `json:"minmax_ite"`          // math mode: encode min/max/abs as ite terms instead of forking (linear harnesses)
@@ -85,6 +86,7 @@ type Report struct {
 	MapRanges       int
 	Steps           int64
 	Truncated       bool
+	TimedOut        bool
 	Internal        []string
 
 	expInv  map[*Term]*Term
